@@ -29,15 +29,28 @@ def log(*a):
 # build
 # ---------------------------------------------------------------------------------------
 def build():
-    """Rebuild skav + hooked ska from /repo's current working tree (incremental)."""
+    """Rebuild skav + hooked ska from /repo's current working tree (incremental).
+    Background exploration runs (`vp run --with-repo`) may set VERIF_REPO to a snapshot of the
+    repository: the harness manifest is then copied with its path dependency rewritten. The
+    registered commands never set it and always build from /repo."""
     t0 = time.time()
     env = dict(os.environ, CARGO_NET_OFFLINE="true")
+    hdir = os.path.join(VERIF, "harness")
+    alt = os.environ.get("VERIF_REPO")
+    if alt and os.path.abspath(alt) != "/repo":
+        hdir = os.path.join(VERIF, "work", "harness-alt")
+        shutil.rmtree(hdir, ignore_errors=True)
+        shutil.copytree(os.path.join(VERIF, "harness"), hdir, ignore=shutil.ignore_patterns("target"))
+        mf = open(os.path.join(hdir, "Cargo.toml")).read().replace('path = "/repo"', 'path = "%s"' % os.path.abspath(alt))
+        open(os.path.join(hdir, "Cargo.toml"), "w").write(mf)
+        cfg = open(os.path.join(hdir, ".cargo", "config.toml")).read().replace('target-dir = "../target"', 'target-dir = "%s"' % TARGET)
+        open(os.path.join(hdir, ".cargo", "config.toml"), "w").write(cfg)
     lock = os.path.join(VERIF, "harness", ".build.lock")
     import fcntl
     with open(lock, "w") as lf:
         fcntl.flock(lf, fcntl.LOCK_EX)
         p = subprocess.run(["cargo", "build", "--release", "--offline", "--quiet"],
-                           cwd=os.path.join(VERIF, "harness"), env=env,
+                           cwd=hdir, env=env,
                            stdout=subprocess.PIPE, stderr=subprocess.STDOUT, text=True)
     if p.returncode != 0:
         sys.stderr.write(p.stdout[-4000:])
